@@ -77,7 +77,9 @@ func lookupWellKnown(ctx context.Context, serverNameType spec.ServerName, dial d
 	}
 
 	// Figure out when the cache expiry time of this well-known record is
-	cacheControlHeader := resp.Header.Get("Cache-Control")
+	// Cache-Control may be spread over several header lines, which mean the
+	// same as one line with the values joined by commas.
+	cacheControlHeader := strings.Join(resp.Header.Values("Cache-Control"), ",")
 	expiresHeader := resp.Header.Get("Expires")
 
 	expiryTimestamp := int64(0)
@@ -97,7 +99,7 @@ func lookupWellKnown(ctx context.Context, serverNameType spec.ServerName, dial d
 	if cacheControlHeader != "" {
 		kvPairs := strings.Split(cacheControlHeader, ",")
 		for _, keyValuePair := range kvPairs {
-			keyValuePair = strings.Trim(keyValuePair, " ")
+			keyValuePair = strings.Trim(keyValuePair, " \t")
 			pieces := strings.SplitN(keyValuePair, "=", 2)
 			if len(pieces) == 2 && strings.EqualFold(pieces[0], "max-age") {
 				// max-age is the (maximum) number of seconds this record can
@@ -126,13 +128,20 @@ func lookupWellKnown(ctx context.Context, serverNameType spec.ServerName, dial d
 		return nil, fmt.Errorf("well-known response exceeds %d bytes", WellKnownMaxSize)
 	}
 
-	// Convert result to JSON
+	// Convert result to JSON. Only the member named exactly "m.server" is
+	// taken from the body (encoding/json would also accept "M.SERVER", and a
+	// "CacheExpiresAt" member for the expiry computed above).
+	var wellKnownBody map[string]json.RawMessage
+	if err = json.Unmarshal(body, &wellKnownBody); err != nil {
+		return nil, err
+	}
 	wellKnownResponse := &WellKnownResult{
 		CacheExpiresAt: expiryTimestamp,
 	}
-	err = json.Unmarshal(body, wellKnownResponse)
-	if err != nil {
-		return nil, err
+	if newAddress, ok := wellKnownBody["m.server"]; ok {
+		if err = json.Unmarshal(newAddress, &wellKnownResponse.NewAddress); err != nil {
+			return nil, err
+		}
 	}
 
 	if wellKnownResponse.NewAddress == "" {
